@@ -943,6 +943,9 @@ impl Handler {
                         error = ?e,
                         "Invalid Authentication header. Dropping session",
                     );
+                    // The challenge has been consumed; drop the expected response that was added
+                    // when the WHOAREYOU was sent.
+                    self.remove_expected_response(node_address.socket_addr);
                     self.fail_session(&node_address, RequestError::InvalidRemotePacket, true)
                         .await;
                 }
